@@ -87,7 +87,7 @@ def check(ctx):
 
     T = hdr.SOMEIPSDEntryType
     # (eventgroup ids have no wildcard: 0xFFFF and 0 are ordinary ids)
-    egsets = (frozenset(), frozenset({5}), frozenset({5, 6}), frozenset({0xFFFF}), frozenset({0, 0xFF}))
+    egsets = (frozenset(), frozenset({5}), frozenset({5, 6}), frozenset({0xFFFF}), frozenset({0, 0xFF}), frozenset({0}), frozenset({7}))
     for a in descs:
         sa = cfg.Service(*a)
         conc_a = a[1] != W[0] and a[2] != W[1] and a[3] != W[2]
